@@ -37,20 +37,41 @@ class W:
         body2.outputs.append(e0.outputs[0])
         n2 = ir.Node("", "If", [self.c], [ir.AttrGraph("then_branch", body), ir.AttrGraph("else_branch", body2)], name="n2")
         n2.outputs[0].name = "r"
-        g = ir.Graph([self.x, self.w, self.c], [n1.outputs[0], n2.outputs[0]], nodes=[n0, n1, n2], name="main", opset_imports={"": 21})
-        self.model = ir.Model(g, ir_version=11)
+        # a model-local function whose body holds an If with a node in its branch (annotations below a function's subgraph)
+        fx = ir.Value(name="fx", shape=ir.Shape([2, "N"]), type=F)
+        fc = ir.Value(name="fc", shape=ir.Shape([]), type=ir.TensorType(ir.DataType.BOOL))
+        fb0 = ir.Node("", "Neg", [fx], name="fb0")
+        fb0.outputs[0].name, fb0.outputs[0].shape, fb0.outputs[0].type = "ft", ir.Shape([2, "N"]), F
+        fe0 = ir.Node("", "Identity", [fx], name="fe0")
+        fe0.outputs[0].name = "fe"
+        fthen = ir.Graph([], [fb0.outputs[0]], nodes=[fb0], name="f_then")
+        felse = ir.Graph([], [fe0.outputs[0]], nodes=[fe0], name="f_else")
+        fif = ir.Node("", "If", [fc], [ir.AttrGraph("then_branch", fthen), ir.AttrGraph("else_branch", felse)], name="f_if")
+        fif.outputs[0].name = "fo"
+        fgraph = ir.Graph([fx, fc], [fif.outputs[0]], nodes=[fif], name="F_body", opset_imports={"": 21})
+        func = ir.Function("local", "F", "", graph=fgraph, attributes=[])
+        n3 = ir.Node("local", "F", [self.x, self.c], name="n3")
+        n3.outputs[0].name = "q"
+        g = ir.Graph([self.x, self.w, self.c], [n1.outputs[0], n2.outputs[0], n3.outputs[0]], nodes=[n0, n1, n2, n3], name="main", opset_imports={"": 21, "local": 1})
+        self.model = ir.Model(g, ir_version=11, functions=[func])
         self.model.add_device_configuration("cfgA", num_devices=2)
         self.model.add_device_configuration("cfgB", num_devices=2, device_names=("d0", "d1"))
         self.foreign = ir.Value(name="foreign")
         self.spare = ir.Value(name="spare", shape=ir.Shape([3]), type=F)
 
     # slot resolution by name so that it survives clone / round trip
+    def all_nodes(self):
+        out = list(self.model.graph.all_nodes())
+        for f in self.model.functions.values():
+            out += list(f.all_nodes())
+        return out
+
     def nodes(self):
-        return {n.name: n for n in self.model.graph.all_nodes()}
+        return {n.name: n for n in self.all_nodes()}
 
     def values(self):
         out = {}
-        for n in self.model.graph.all_nodes():
+        for n in self.all_nodes():
             for v in list(n.inputs) + list(n.outputs):
                 if v is not None and v.name:
                     out.setdefault(v.name, v)
@@ -60,6 +81,16 @@ class W:
         out.setdefault("spare", self.spare)
         return out
 
+    def resolve(self, nn, vn):
+        """A value by name as seen from node nn: the node's own inputs/outputs first (an inner value may carry
+        the name of an outer one), then any value of the model."""
+        n = self.nodes().get(nn)
+        if n is not None:
+            for v in list(n.inputs) + list(n.outputs):
+                if v is not None and v.name == vn:
+                    return v
+        return self.values().get(vn)
+
     def cfg(self, name):
         for c in self.model.device_configurations:
             if c.name == name:
@@ -68,6 +99,7 @@ class W:
 
 
 NODE_NAMES = ("n0", "n1", "m0")
+LIGHT_NODES = ("e0", "fb0")  # else-branch node of the main graph's If; branch node of the If inside the function
 
 
 def enabled(w):
@@ -102,10 +134,24 @@ def enabled(w):
         for k in (0, 1, 3):
             ops.append(("resize_inputs", nn, k))
             ops.append(("resize_outputs", nn, k))
+    for nn in LIGHT_NODES:
+        n = nodes.get(nn)
+        if n is None:
+            continue
+        io = []
+        for v in list(n.inputs) + list(n.outputs):
+            if v is not None and v.name and v.name not in io:
+                io.append(v.name)
+        for cn in cfgs:
+            for vn in io:
+                ops.append(("shard", nn, vn, cn, 0, 2, (), None))
+            ops.append(("stage", nn, cn, 0))
     for vn in ("x", "a", "w"):
         if vn in vals:
             ops.append(("rename", vn, vn + "_r"))
             ops.append(("rauw", vn, "spare"))
+    if "e" in vals:
+        ops.append(("rename", "e", "a"))  # a branch-local value takes the name of a value of the enclosing graph
     for cn in ("cfgA", "cfgB", "cfgNew"):
         ops.append(("remove_cfg_by_name", cn))
         ops.append(("remove_cfg_by_obj", cn))
@@ -120,7 +166,9 @@ def apply(w, op):
     try:
         if k == "shard":
             _, nn, vn, cn, axis, ns, dev, stage = op
-            nodes[nn].shard(vals[vn], configuration=w.cfg(cn), axis=axis, num_shards=ns, device_indices=dev, pipeline_stage=stage)
+            if w.resolve(nn, vn) is None:
+                raise KeyError(vn)
+            nodes[nn].shard(w.resolve(nn, vn), configuration=w.cfg(cn), axis=axis, num_shards=ns, device_indices=dev, pipeline_stage=stage)
         elif k == "stage":
             nodes[op[1]].set_pipeline_stage(w.cfg(op[2]), op[3])
         elif k == "replace_input":
@@ -164,7 +212,7 @@ def must_reject(w, op):
     if op[0] == "shard":
         _, nn, vn, cn, axis, ns, dev, stage = op
         n = w.nodes().get(nn)
-        v = w.values().get(vn)
+        v = w.resolve(nn, vn)
         cfg = w.cfg(cn)
         if n is None or v is None or cfg is None:
             return None
@@ -247,8 +295,13 @@ def invariant(w):
                     for gg in a.graphs:
                         yield from walk(gg)
 
+        def walk_all():
+            yield from walk(p.graph)
+            for fp in p.functions:
+                yield from walk(fp)
+
         cfg_names = {c.name for c in p.configuration}
-        for np_ in walk(p.graph):
+        for np_ in walk_all():
             names = set(np_.input) | set(np_.output)
             for dc in np_.device_configurations:
                 if dc.configuration_id not in cfg_names:
@@ -258,7 +311,7 @@ def invariant(w):
                         out.append(("serialized_tensor_name_is_not_a_current_io_name", f"{np_.name}: {sp.tensor_name} not in {sorted(names)}"))
         # IR node annotations and serialised ones agree in number
         ir_count = sum(len(dc.sharding_specs) for n in nodes for dc in n.device_configurations)
-        pr_count = sum(len(dc.sharding_spec) for np_ in walk(p.graph) for dc in np_.device_configurations)
+        pr_count = sum(len(dc.sharding_spec) for np_ in walk_all() for dc in np_.device_configurations)
         if ir_count != pr_count:
             out.append(("serialized_annotation_count_differs", (ir_count, pr_count)))
     except Exception as e:  # noqa: BLE001
@@ -282,7 +335,7 @@ def build(history):
 
 def canon(w):
     reg = Registry()
-    s = snapshot([w.model.graph], reg)
+    s = snapshot([w.model.graph] + list(w.model.functions.values()), reg)
     cfgs = tuple((c.name, c.num_devices, c.device_names) for c in w.model.device_configurations)
     return hashlib.blake2b(pickle.dumps((tuple(sorted(s.items())), cfgs)), digest_size=12).digest()
 
@@ -299,7 +352,7 @@ def _expand(task):
             continue
         w2, _ = build(history)
         reg = Registry()
-        before = snapshot([w2.model.graph, w2.foreign, w2.spare], reg)
+        before = snapshot([w2.model.graph, w2.foreign, w2.spare] + list(w2.model.functions.values()), reg)
         cfg_before = tuple(id(c) for c in w2.model.device_configurations)
         rej = must_reject(w2, op)
         res = apply(w2, op)
@@ -309,7 +362,7 @@ def _expand(task):
         if rej and res[0] != "exc":
             v.append(("invalid_request_accepted", f"{op}: {rej}"))
         if res[0] == "exc" and op[0] not in ("clone", "clone_deep", "round_trip"):
-            after = snapshot([w2.model.graph, w2.foreign, w2.spare], reg)
+            after = snapshot([w2.model.graph, w2.foreign, w2.spare] + list(w2.model.functions.values()), reg)
             d = diff(before, {k: x for k, x in after.items() if k in before})
             if d or tuple(id(c) for c in w2.model.device_configurations) != cfg_before:
                 v.append(("rejected_request_had_an_effect", (op[0], [x[:2] for x in d[:3]])))
